@@ -1,19 +1,53 @@
-//! `vh-c06 C06 --seed N --tier quick|thorough --out DIR [--replay FILE] [--scale K] <arith|chain>`
+//! `vh-c06 C06 --seed N --tier quick|thorough --out DIR [--replay FILE] [--scale K] <arith|chain|node>`
 //! Correspondence harness for property C06 (own crate so that work-in-progress on other
-//! properties cannot break this build). Shares `common.rs` and the harness source
-//! `hnode/src/c06.rs` by path.
+//! properties cannot break this build). Shares `common.rs`, `hnode/src/node.rs` and the harness
+//! source `hnode/src/c06.rs` (streams `arith`, `chain`) by path; the `node` stream is
+//! `src/node_stream.rs`.
 #![allow(dead_code)]
 #[path = "../../hcore/src/common.rs"]
 mod common;
 #[path = "../../hnode/src/c06.rs"]
 mod c06;
+#[path = "../../hnode/src/node.rs"]
+pub mod node;
+mod node_stream;
+
+/// Every corpus file is offered to every stream. A file belongs to the stream named by a comment
+/// line `# stream: <name>` (or bin/check's `# property C06 stream <name> ...` header), else by its
+/// file name prefix `arith-` / `chain-` / `node-`; a file that names no stream runs everywhere.
+fn declared_stream(path: &std::path::Path) -> Option<String> {
+    let txt = std::fs::read_to_string(path).expect("read replay");
+    let by_marker = txt.lines().find_map(|l| {
+        let l = l.trim();
+        l.strip_prefix("# stream: ").map(|s| s.trim().to_string()).or_else(|| {
+            l.strip_prefix("# property C06 stream ").map(|s| s.split_whitespace().next().unwrap_or("").to_string())
+        })
+    });
+    by_marker.or_else(|| {
+        let name = path.file_name().map(|n| n.to_string_lossy().to_string()).unwrap_or_default();
+        ["arith", "chain", "node"].iter().find(|s| name.starts_with(&format!("{}-", s))).map(|s| s.to_string())
+    })
+}
 
 fn main() {
     let args: Vec<String> = std::env::args().skip(1).collect();
     if args.is_empty() {
-        eprintln!("usage: vh-c06 C06 --seed N --tier T --out DIR <arith|chain>");
+        eprintln!("usage: vh-c06 C06 --seed N --tier T --out DIR <arith|chain|node>");
         std::process::exit(2);
     }
     let opts = common::Opts::parse(&args[1..]);
-    c06::run(&opts)
+    let stream = match opts.extra.first().map(|s| s.as_str()) {
+        Some("chain") => "chain",
+        Some("node") => "node",
+        _ => "arith",
+    };
+    if let Some(rp) = &opts.replay {
+        if let Some(d) = declared_stream(rp) {
+            if d != stream {
+                common::Out::new(&opts.out).finish("(corpus file of another stream: skipped)");
+                return;
+            }
+        }
+    }
+    if stream == "node" { node_stream::run(&opts) } else { c06::run(&opts) }
 }
